@@ -693,6 +693,8 @@ def replay(case, rec):
 def floors(tier, m):
     out = []
     c = m['counters']
+    if c.get('aftermath_batteries_compared', 0) < 50 and not m['violation_counts']:
+        out.append('aftermath batteries compared: %s' % c.get('aftermath_batteries_compared'))
     if c.get('calls_compared_stress', 0) < 2000:
         out.append('fewer than 2000 calls compared under stress')
     if c.get('baton_schedules', 0) < 500:
